@@ -168,7 +168,10 @@ class ProjectFiles:
         patterns.
         """
         base = matcher.prefix
-        if self._isfile(base):
+        # the prefix of a pattern with wildcards can be a file, too,
+        # "ba" for "ba*", don't stop at that one then
+        literal = matcher.pattern.prefix_length == len(matcher.pattern)
+        if literal and self._isfile(base):
             if self.exclude and self.exclude.match(base) is not None:
                 return
             if matcher.match(base) is not None:
